@@ -1,0 +1,95 @@
+//go:build verif
+
+package keeper
+
+// Contracts for the deductive checker in /verif (comment-only; compiled only with -tags verif).
+// Property C05, keeper side: the cache-context discipline of ApplyTransaction - "a transaction that ultimately fails
+// changes nothing except the fee payment and the nonce". Loaded together with tag c07 (contract of ApplyMessageWithConfig).
+
+/*@
+// ---- leaf getters / setters of the keeper (KV / transient store, staking and fee-market reads): assumed, effect-free for
+// the modelled world (x/bank balances, the write-back counter of cache contexts)
+func (Keeper).GetParams
+    trusted
+    pure
+func (Keeper).GetCoinbaseAddress
+    trusted
+    pure
+func (Keeper).GetBaseFee
+    trusted
+    pure
+func (*Keeper).TxConfig
+    trusted
+    pure
+func (Keeper).GetBlockBloomTransient
+    trusted
+    ensures result != nil
+func (Keeper).SetBlockBloomTransient
+    trusted
+    ensures true
+func (Keeper).SetLogSizeTransient
+    trusted
+    ensures true
+func (Keeper).SetTxIndexTransient
+    trusted
+    ensures true
+func (Keeper).AddTransientGasUsed
+    trusted
+    ensures true
+func (Keeper).Logger
+    trusted
+    pure
+// resets the gas meter of the given context and charges gasUsed: the gas meter is not part of the modelled world
+func (*Keeper).ResetGasMeterAndConsumeGas
+    trusted
+    ensures true
+
+// the EVM configuration of the block: on success the config and its chain config exist
+func (*Keeper).EVMConfig
+    requires nonnil: k != nil
+    ensures nonnil: result.1 == nil ==> result.0 != nil && result.0.ChainConfig != nil
+
+// ---- post-transaction hooks (other modules: erc20 conversion, ...): unknown code that works on the context it is given; it
+// may move coins and rewrite the receipt, it has no access to the write-back function of the cache context
+func (github.com/haqq-network/haqq/x/evm/types.EvmHooks).PostTxProcessing
+    params h, hctx, msg, receipt
+    modifies bank_bal, *receipt
+    // Go invariant (the length of a slice is non-negative), not tracked by the engine for slices read from the heap
+    ensures golen: len(receipt.Logs) >= 0 && len(receipt.Logs) <= 9223372036854775807
+func (*Keeper).PostTxProcessing
+    params k, hctx, msg, receipt
+    requires nonnil: k != nil && receipt != nil
+    requires golen: len(receipt.Logs) >= 0 && len(receipt.Logs) <= 9223372036854775807
+    modifies bank_bal, *receipt
+    ensures golen: len(receipt.Logs) >= 0 && len(receipt.Logs) <= 9223372036854775807
+    ensures nohooks: k.hooks == nil ==> result == nil && bank_bal == old(bank_bal) && *receipt == old(*receipt)
+
+// ---- ApplyTransaction.
+//  * With hooks installed the message is applied on a BRANCH of ctx (ctx.CacheContext()), the hooks run on the same branch, and
+//    the branch is written back (the function value `commit`, contract CacheContext$1: cache_written + 1) only if the EVM
+//    execution did not fail AND the hooks returned no error - on every other path the branch is dropped, so nothing the message
+//    or the hooks did reaches ctx; what happens on ctx itself afterwards is the gas refund (fee) and gas/bloom bookkeeping.
+//  * Without hooks there is no branch: the message is applied on ctx directly (a failed EVM execution has already been
+//    undone inside the StateDB: journal contracts of x/evm/statedb) and nothing is ever written back.
+func (*Keeper).ApplyTransaction
+    let branch = ret(CacheContext, 1, 0)
+    let vmfailed = ret(Failed, 1, 0)
+    let hookerr = ret(PostTxProcessing, 1, 0)
+    requires nonnil: k != nil && tx != nil && k.bankKeeper != nil
+    // the gas limit of a transaction in a block is bounded by the block gas limit (int64 MaxGas): checked by the ante handler
+    requires gaslimit: tx_gas(tx) <= 9223372036854775807
+    modifies bank_bal, cache_written
+    allow frame
+    call commit contract (github.com/cosmos/cosmos-sdk/types.Context).CacheContext$1
+    // the write-back is reached only after a successful execution and successful hooks, and only with hooks installed
+    call commit requires c05_guard: k.hooks != nil && !vmfailed && hookerr == nil
+    // with hooks installed, execution and hooks work on the branch, not on ctx
+    call ApplyMessageWithConfig requires c05_onbranch: k.hooks != nil ==> ctx == branch
+    call PostTxProcessing requires c05_onbranch: (k.hooks != nil ==> hctx == branch) && !vmfailed
+    ensures c05_vmfailed: result.1 == nil && vmfailed ==> cache_written == old(cache_written)
+    ensures c05_hookfailed: result.1 == nil && !vmfailed && hookerr != nil ==> cache_written == old(cache_written) && len(result.0.Logs) == 0
+    ensures c05_success: result.1 == nil && !vmfailed && hookerr == nil && k.hooks != nil ==> cache_written == old(cache_written) + 1
+    ensures c05_nohooks: k.hooks == nil ==> cache_written == old(cache_written)
+    ensures c05_atmostonce: cache_written == old(cache_written) || cache_written == old(cache_written) + 1
+    ensures result: result.1 == nil ==> result.0 != nil
+@*/
